@@ -31,13 +31,23 @@ fn main() {
         let mut ops = e1::gen_history(&mut rng, len, &mut next_id);
         // more explicit collections, at arbitrary points (also while indexing workers hold open segments)
         for _ in 0..3 { let i = rng.below(ops.len() as u64) as usize; ops.insert(i, Op::Gc); }
-        let cfg = Cfg { threads: 1 + (h % 3), merge_policy: (h % 2) as u8, stop_on_error: false };
+        // ... and directly after some commits: with no merge running the SAME writer's collection must leave exactly
+        // the committed files (probed inside the history, see RunResult::probes)
+        let commits_at: Vec<usize> = ops.iter().enumerate().filter(|(_, o)| **o == Op::Commit).map(|(i, _)| i).collect();
+        for i in commits_at.into_iter().rev() { if rng.chance(1, 2) { ops.insert(i + 1, Op::Gc); } }
+        let cfg = Cfg { threads: 1 + (h % 3), merge_policy: (h % 2) as u8, stop_on_error: false, replay_failed_commit: false };
         let vd = VerifDirectory::new();
         // a reader on a SECOND Index instance of the same directory keeps reloading while the writer works
         // (slowed down inside its reload, GC slowed down between its deletes): GC must never remove a file such a
         // reload still has to open
         let (schema0, _f0) = e1::schema();
-        let index0 = Index::create(vd.clone(), schema0, tantivy::IndexSettings::default()).unwrap();
+        // half of the histories run on an index sorted by the id fast field: its indexing workers stream the
+        // documents to a temporary doc store (<segment>.store.temp) that must be collected once the segment is final
+        let sorted = (h / 2) % 2 == 1;
+        let settings = if sorted {
+            tantivy::IndexSettings { sort_by_field: Some(tantivy::IndexSortByField { field: "id".to_string(), order: tantivy::Order::Asc }), ..Default::default() }
+        } else { tantivy::IndexSettings::default() };
+        let index0 = Index::create(vd.clone(), schema0, settings).unwrap();
         let mut hr = rng.fork();
         let jitter: Vec<u64> = (0..64).map(|_| hr.below(4)).collect();
         vd.set_hook(Some(std::sync::Arc::new(move |_vd, seq, kind, _path| {
@@ -67,10 +77,11 @@ fn main() {
         stop.store(true, std::sync::atomic::Ordering::SeqCst);
         for e in reader_handle.join().unwrap_or_else(|_| vec!["reader thread panicked".into()]) {
             out.spec_checked(false, json!({"what": "a reload on a second Index instance failed while the writer was working (file removed while needed by a reader in the middle of loading?)", "err": e,
-                                           "case": {"history": ops.iter().map(|o| o.to_json()).collect::<Vec<_>>(), "threads": cfg.threads, "merge_policy": cfg.merge_policy}}));
+                                           "case": {"history": ops.iter().map(|o| o.to_json()).collect::<Vec<_>>(), "threads": cfg.threads, "merge_policy": cfg.merge_policy, "sorted": sorted}}));
         }
         vd.set_hook(None);
-        let desc = json!({"history": ops.iter().map(|o| o.to_json()).collect::<Vec<_>>(), "threads": cfg.threads, "merge_policy": cfg.merge_policy});
+        let desc = json!({"history": ops.iter().map(|o| o.to_json()).collect::<Vec<_>>(), "threads": cfg.threads, "merge_policy": cfg.merge_policy, "sorted": sorted});
+        if sorted { out.count("histories_on_sorted_index", 1); }
         if let Some(p) = &res.panicked { out.spec_checked(false, json!({"what": "panic in a fault-free history", "panic": p, "case": desc})); continue; }
         let index: Index = match &res.index { Some(i) => i.clone(), None => continue };
         // a needed file was never missing: no open of a segment file failed with NotFound
@@ -79,6 +90,16 @@ fn main() {
         }
         for a in res.api.iter().filter(|a| !a.ok && a.what != "merge") {
             out.spec_checked(false, json!({"what": "API call failed in a fault-free history", "call": a.what, "err": a.err, "case": desc}));
+        }
+        // quiescence inside the history: commit returned, no merge running, the writer's own collection has run
+        for (i, (pf, pm, pl)) in &res.probes {
+            let orphans: Vec<&String> = pf.iter().filter(|f| !pl.contains(f)).collect();
+            let missing: Vec<&String> = pl.iter().filter(|f| !pf.contains(f)).collect();
+            let managed_ok = { let mut a = pm.clone(); a.sort(); let mut b = pf.clone(); b.sort(); a == b };
+            out.count("in_history_quiescence_probes", 1);
+            if orphans.is_empty() && missing.is_empty() && managed_ok { out.spec_checked(true, json!({})); continue; }
+            out.spec_checked(false, json!({"what": "after a returned commit and the writer's garbage collection (no merge running) the directory is not exactly the committed files", "after_op": i,
+                                           "orphans": orphans, "missing": missing, "managed_matches": managed_ok, "case": desc}));
         }
         // quiescence: commit returned, merges finished, then one explicit collection
         let q = guarded(|| -> tantivy::Result<_> {
